@@ -28,6 +28,11 @@ Decided for every n, cap, pend, q, declared size inside the bound:
   sizes its individual requests is not judged;  identity returns its input;  compress/decompress dispatch to the
   same codec with the right level and the same gzip container.
 
+Size-less frames are additionally given a WIRE LAYOUT (``_WireFrame``): 1..3 blocks with symbolic Block_Type (Raw, RLE,
+Compressed), Block_Size (0..Block_Maximum_Size, the boundary included), Last_Block and checksum flags, so that whatever
+reads the frame's bytes before decoding (``_zstd_frame_complete``: the block-header walk) runs for real; the oracle is RFC 8878
+3.1.1.2 as the live library applies it (checked at import and in the replay, on hand-built frames of exactly that layout).
+
 Every counterexample is replayed on the un-stubbed functions with real zlib / zstandard and
 concrete data built from it (honest, size-less and header-patched lying zstd frames).
 """
@@ -47,6 +52,8 @@ from vgi_rpc import _codec as cod
 
 PROPERTY = "C18"
 ENCODED = [cod.decompress, cod._decompress_body_gzip, cod._decompress_body_zstd, cod._zstd_content_size, cod.compress, cod._compress_body_gzip, cod._compress_body_zstd]
+if hasattr(cod, "_zstd_frame_complete"):
+    ENCODED.append(cod._zstd_frame_complete)
 
 _N = pick(10, 20)  # plaintext length bound
 _CHUNK = 3  # patched _DECOMPRESS_CHUNK_BYTES
@@ -163,6 +170,78 @@ class _Fin:
     """Result of compressobj.flush(Z_FINISH)."""
 
 
+_BLOCK_MAX = _real_zstd.BLOCKSIZE_MAX  # RFC 8878 3.1.1.2.4 Block_Maximum_Size for any window >= 128 KiB (live library constant)
+_HDR_SIZELESS = b"\x28\xb5\x2f\xfd\x00\x00"  # magic, Frame_Header_Descriptor, Window_Descriptor: all a size-less frame without dictionary has
+
+
+class _WireFrame(_Frame):
+    """A size-less zstd frame whose WIRE LAYOUT (RFC 8878 3.1.1) is visible to code that walks it: frame header,
+    then blocks = 3-byte little-endian Block_Header (Last_Block bit, Block_Type 2 bits, Block_Size 21 bits) followed
+    by the stored bytes (Raw: Block_Size bytes; RLE: one byte; Compressed: Block_Size bytes), then 4 checksum bytes
+    when the header says so.  Only short reads are served (a walker costs a few bytes per block): block headers exactly,
+    the stored bytes of Raw / RLE blocks as the ``fill`` byte.  What the frame decodes to stays the hidden ``plain``."""
+
+    __slots__ = ("blocks", "checksum", "fill", "hsize")
+
+    def __init__(self, plain: bytes, declared: int, window: int, checksum: bool, headers: list, fill: int) -> None:
+        self.hsize = len(_HDR_SIZELESS)
+        self.checksum = checksum
+        self.fill = fill
+        self.blocks = []  # (offset of the Block_Header, header as an int, stored bytes, block type)
+        pos = self.hsize
+        for last, btype, size in headers:
+            stored = 1 if btype == 1 else size
+            self.blocks.append((pos, (1 if last else 0) + 2 * btype + 8 * size, stored, btype))
+            pos = pos + 3 + stored
+        _Frame.__init__(self, "zstd", plain, declared=declared, window=window, wire=pos + (4 if checksum else 0))
+
+    def _byte(self, p: int) -> int:
+        if p < self.hsize:
+            for i, b in enumerate(_HDR_SIZELESS):
+                if p == i:
+                    return (4 if self.checksum else 0) if i == 4 else b
+        for off, h, stored, btype in self.blocks:
+            if p < off + 3:
+                return h % 256 if p == off else ((h // 256) % 256 if p == off + 1 else h // 65536)
+            if p < off + 3 + stored:
+                if btype == 2:
+                    raise HarnessModelError("read inside a compressed block: its content is not modelled")
+                return self.fill
+        raise HarnessModelError("read of the frame checksum: its value is not modelled")
+
+    def __getitem__(self, key: object) -> object:
+        if not isinstance(key, slice):
+            if not 0 <= key < self.wire:  # type: ignore[operator]
+                raise HarnessModelError("index outside the frame / from its end")
+            return self._byte(key)  # type: ignore[arg-type]
+        if key.step is not None:
+            raise HarnessModelError("strided read of the frame")
+        start = 0 if key.start is None else key.start
+        stop = self.wire if key.stop is None else key.stop
+        if start < 0 or stop < 0:
+            raise HarnessModelError("read relative to the end of the frame")
+        if stop > self.wire:
+            stop = self.wire
+        if stop <= start:
+            return b""
+        for off, h, _stored, _t in self.blocks:  # the common case: exactly one Block_Header
+            if start == off and stop == off + 3:
+                return _octets([h % 256, (h // 256) % 256, h // 65536])
+        if stop - start > 8:
+            raise HarnessModelError("bulk read of the frame body (only short reads are modelled)")
+        return _octets([self._byte(start + i) for i in range(stop - start)])
+
+
+def _octets(vals: list) -> object:
+    """bytes when the values are concrete (re-run of a counterexample), the list itself while they are symbolic
+    (int.from_bytes / iteration / indexing take both)."""
+    try:
+        from crosshair.tracers import is_tracing
+    except ImportError:  # pragma: no cover
+        return bytes(vals)
+    return vals if is_tracing() else bytes(vals)
+
+
 _TAIL = b"\x01"  # the not-yet-consumed rest of the input
 
 
@@ -265,8 +344,10 @@ _ZLIB = _ZlibStub()
 
 
 class _FrameParams:
-    def __init__(self, content_size: int) -> None:
+    def __init__(self, content_size: int, has_checksum: bool | None = None) -> None:
         self.content_size = content_size
+        if has_checksum is not None:  # only frames whose wire layout is modelled (_WireFrame) say
+            self.has_checksum = has_checksum
 
     def __getattr__(self, name: str) -> object:
         raise HarnessModelError(f"FrameParameters stub has no {name}")
@@ -363,7 +444,15 @@ class _ZCompressor:
 def _zs_get_frame_parameters(data: object) -> _FrameParams:
     if not isinstance(data, _Frame) or data.codec != "zstd":
         raise _real_zstd.ZstdError("cannot get frame parameters: Unknown frame descriptor")
-    return _FrameParams(data.declared)
+    return _FrameParams(data.declared, data.checksum if isinstance(data, _WireFrame) else None)
+
+
+def _zs_frame_header_size(data: object) -> int:
+    if isinstance(data, _WireFrame):
+        return data.hsize
+    if isinstance(data, _Frame):
+        raise HarnessModelError("frame_header_size of a frame whose wire layout is not modelled")
+    raise _real_zstd.ZstdError("could not determine frame header size")
 
 
 def _zs_decompressor(dict_data: object = None, max_window_size: int = 0, format: object = None, **kw: object) -> _ZDecompressor:  # noqa: A002
@@ -388,6 +477,7 @@ _ZSTD = types.ModuleType("zstandard")
 _ZSTD.ZstdError = _real_zstd.ZstdError  # type: ignore[attr-defined]
 _ZSTD.quantum = 1 << 30  # type: ignore[attr-defined]
 _ZSTD.get_frame_parameters = _zs_get_frame_parameters  # type: ignore[attr-defined]
+_ZSTD.frame_header_size = _zs_frame_header_size  # type: ignore[attr-defined]
 _ZSTD.ZstdDecompressor = _zs_decompressor  # type: ignore[attr-defined]
 _ZSTD.ZstdCompressor = _zs_compressor  # type: ignore[attr-defined]
 _ZSTD.__getattr__ = _zs_missing  # type: ignore[attr-defined]
@@ -411,16 +501,20 @@ gz_stubbed = reglobalize(cod._decompress_body_gzip, zlib=_ZLIB, _DECOMPRESS_CHUN
 _ZS_EXTRA: dict = {}
 if hasattr(cod, "_zstd_frame_complete") and "_zstd_frame_complete" in cod._decompress_body_zstd.__code__.co_names:
     # A frame-completeness predicate over the raw frame bytes (block-header walk) cannot run on an opaque
-    # frame: it is replaced by its contract.  Its own correctness is exercised by the real replays only.
+    # frame: it is replaced by its contract in the items over opaque frames.  The walk itself runs for real, over
+    # symbolic block headers, in zstd_streaming_frame_of_any_block_layout (complete legal frames; truncated ones: C17).
     def _frame_complete_contract(data: object) -> bool:
         if not isinstance(data, _Frame):
             raise HarnessModelError("frame-completeness predicate called on something that is not the frame")
         return not data.truncated
 
     _ZS_EXTRA["_zstd_frame_complete"] = _frame_complete_contract
-    ASSUMPTIONS.append("_zstd_frame_complete (present in this tree) := contract 'True iff the frame reaches its last block' — the block-header walk itself is outside the claim")
+    ASSUMPTIONS.append("_zstd_frame_complete (present in this tree) := contract 'True iff the frame reaches its last block' — in the items over opaque frames; the block-header walk itself is decided by zstd_streaming_frame_of_any_block_layout")
 zs_stubbed = reglobalize(cod._decompress_body_zstd, _DECOMPRESS_CHUNK_BYTES=_CHUNK, **_ZS_EXTRA)  # zstandard via sys.modules
 decompress_stubbed = reglobalize(cod.decompress, _decompress_body_gzip=gz_stubbed, _decompress_body_zstd=zs_stubbed)
+# the same, with whatever walks the frame's bytes left REAL (it then needs a frame whose wire layout is modelled: _WireFrame)
+zs_walked = reglobalize(cod._decompress_body_zstd, _DECOMPRESS_CHUNK_BYTES=_CHUNK)
+decompress_walked = reglobalize(cod.decompress, _decompress_body_zstd=zs_walked)
 gzc_stubbed = reglobalize(cod._compress_body_gzip, zlib=_ZLIB)
 compress_stubbed = reglobalize(cod.compress, _compress_body_gzip=gzc_stubbed)
 
@@ -747,13 +841,15 @@ def zstd_cap_exact(plain: bytes, has_cap: bool, cap: int, size_mode: int, quantu
     return _zstd_decides(plain, cap if has_cap else None, declared, quantum, _WIN_TINY if size_mode == 0 else _WIN_LO)
 
 
-def _zstd_decides(plain: bytes, c: int | None, declared: int, quantum: int, window: int) -> bool:
+def _zstd_decides(plain: bytes, c: int | None, declared: int, quantum: int, window: int, frame: _Frame | None = None) -> bool:
     rec = reset_rec(c, quantum=quantum)
     n = len(plain)
-    frame = _Frame("zstd", plain, declared=declared, window=window)
+    dec = decompress_stubbed if frame is None else decompress_walked
+    if frame is None:
+        frame = _Frame("zstd", plain, declared=declared, window=window)
     with stub_zstandard():
         try:
-            out = decompress_stubbed(cod.Encoding.ZSTD, frame, max_output_size=c)
+            out = dec(cod.Encoding.ZSTD, frame, max_output_size=c)
         except cod.DecompressionLimitExceeded:
             if c is None or n <= c:
                 return False
@@ -817,6 +913,145 @@ def zstd_streaming_frame_of_any_level(plain: bytes, has_cap: bool, cap: int, win
     # the frame's window requirement is a property of the LEVEL it was written at, not of its payload: every level's
     # streaming frame must round-trip / hit the limit error exactly like any other
     return _zstd_decides(plain, cap if has_cap else None, -1 if minus_one else _UNKNOWN, quantum, win)
+
+
+# ---------------------------------------------------------------------------
+# size-less frames of any block layout: the code that walks the frame's bytes runs for real
+# ---------------------------------------------------------------------------
+
+_NL = pick(1, 3)  # plaintext bound of the block-layout item (the cap decision for longer ones: zstd_cap_exact)
+_KB = 3  # blocks per frame
+
+
+def hand_block(btype: int, size: int, last: bool, fill: int) -> tuple[bytes, bytes] | None:
+    """One RFC 8878 block with Block_Size == ``size`` exactly, and what it decodes to.  Compressed blocks are built as
+    a Raw_Literals_Block of ``fill`` bytes followed by an empty Sequences_Section (Number_of_Sequences = 0)."""
+    hb = ((1 if last else 0) | (btype << 1) | (size << 3)).to_bytes(3, "little")
+    f = bytes([fill])
+    if btype == 0:
+        return hb + f * size, f * size
+    if btype == 1:
+        return hb + f, f * size
+    if btype != 2 or size < 2:
+        return None
+    if size <= 33:
+        lits = size - 2
+        lh = bytes([lits << 3])  # 1-byte Literals_Section_Header: Raw, Size_Format 00, 5-bit Regenerated_Size
+    else:
+        lits = size - 4
+        lh = ((3 << 2) | (lits << 4)).to_bytes(3, "little")  # 3-byte header: Raw, Size_Format 11, 20-bit Regenerated_Size
+    return hb + lh + f * lits + b"\x00", f * lits
+
+
+def hand_frame(blocks: list, checksum: bool, fill: int, wlog: int) -> tuple[bytes, bytes] | None:
+    """A size-less frame made of the given (Block_Type, Block_Size) blocks and its plaintext."""
+    out = bytearray(b"\x28\xb5\x2f\xfd" + bytes([4 if checksum else 0, (wlog - 10) << 3]))
+    plain = b""
+    for i, (btype, size) in enumerate(blocks):
+        made = hand_block(btype, size, i == len(blocks) - 1, fill)
+        if made is None:
+            return None
+        out += made[0]
+        plain += made[1]
+    if checksum:
+        # Content_Checksum = low 32 bits of XXH64(plaintext): taken from a frame the real compressor writes for it
+        out += _real_zstd.ZstdCompressor(level=1, write_checksum=True).compress(plain)[-4:]
+    return bytes(out), plain
+
+
+def _library_decodes(frame: bytes) -> bytes | None:
+    try:
+        return _real_zstd.ZstdDecompressor().stream_reader(frame).read()
+    except _real_zstd.ZstdError:
+        return None
+
+
+def _check_block_rules() -> None:
+    """The oracle of the block-layout item (a block of any of the three types with Block_Size <= Block_Maximum_Size is
+    legal, compressed blocks hold at least 2 bytes) is the live library's: checked at import on hand-built frames."""
+    wlog = _LEVEL_WLOG[3]
+    for btype in (0, 1, 2):
+        for size, legal in ((2 if btype == 2 else 0, True), (_BLOCK_MAX, True), (_BLOCK_MAX + 1, False)):
+            made = hand_frame([(btype, size), (btype, size)], True, 0x5A, wlog)
+            if made is None or (_library_decodes(made[0]) == made[1]) != legal:
+                raise RuntimeError(f"zstandard disagrees with the C18 block-layout oracle on Block_Type {btype} Block_Size {size}")
+            if _real_zstd.frame_header_size(made[0]) != len(_HDR_SIZELESS) or not _real_zstd.get_frame_parameters(made[0]).has_checksum:
+                raise RuntimeError("hand-built frame header is not what the C18 wire model says")
+
+
+_check_block_rules()
+
+
+def _layout(args: dict) -> list:
+    return [(args[f"t{i}"], args[f"s{i}"]) for i in range(args["nblocks"])]
+
+
+def _replay_layout(args: dict) -> str | None:
+    """The SAME block layout, byte for byte, through the un-stubbed decompress(): the frame is hand-built, the real
+    library is asked first whether it is a legal complete frame (what it decodes to is then the plaintext)."""
+    cap = args["cap"] if args["has_cap"] else None
+    n = len(args["plain"])
+    made = hand_frame(_layout(args), args["checksum"], args["fill"], _LEVEL_WLOG[_level_for_window(_WIN_LO)])
+    if made is None:
+        return None
+    data, p = made
+    if _library_decodes(data) != p:
+        return None  # not a legal frame for the real library: nothing is demanded
+    caps: list[int | None] = [None]
+    if cap is not None and len(p) + cap - n >= 0:
+        caps.insert(0, len(p) + cap - n)  # the same relation between cap and length as in the counterexample
+    for c in caps:
+        got, out, msg, m = _real_outcome(cod.Encoding.ZSTD, data, c)
+        want = _expect(len(p), c)
+        if got != want or (got == "ok" and out != p):
+            what = f"returned {len(out or b'')} bytes" if got == "ok" else f"raised {got} {msg[:90]}"
+            desc = ", ".join(f"{('Raw', 'RLE', 'Compressed')[t]} block of Block_Size {sz}" for t, sz in _layout(args))
+            return (
+                f"decompress(ZSTD, <{len(data)}-byte size-less zstd frame ({desc}{', checksum' if args['checksum'] else ''}) which the library decodes to "
+                f"{len(p)} bytes>, max_output_size={c}) {what}; expected {'the plaintext' if want == 'ok' else 'DecompressionLimitExceeded'}"
+            )
+        if m.over():
+            return f"decompress(ZSTD, <size-less frame, {len(p)} bytes>, max_output_size={c}) materialised {m.produced} decoded bytes{m.unlimited}"
+    return None
+
+
+BOUNDS += (
+    f"; size-less frames of 1..{_KB} blocks, each of any type (Raw, RLE, Compressed) and any Block_Size up to Block_Maximum_Size = {_BLOCK_MAX} "
+    f"(Compressed: from 2), with or without checksum, n<={_NL}: whatever reads the frame's bytes (block walk) runs for real"
+)
+OUTSIDE += (
+    "; in the block-layout item: the reserved Block_Type 3 and Block_Size above Block_Maximum_Size (no legal frame has them), frames with a "
+    "Dictionary_ID / windows under 128 KiB (streaming compressors use >= 512 KiB), the relation between a frame's block sizes and the LENGTH of what "
+    "it decodes to (the decoder is the codec stub: n is symbolic and small whatever the blocks store; replays use the real decoded length)"
+)
+ASSUMPTIONS.append(
+    "block-layout item: zstandard.frame_header_size := 6 (size-less frame without dictionary), get_frame_parameters(...).has_checksum := the "
+    "frame's flag; the frame serves short reads of its wire bytes (Block_Headers exact, Raw / RLE stored bytes = one fill byte); legality of the "
+    "generated layouts is the live library's (checked at import at the boundary sizes, and per counterexample in the replay)"
+)
+
+
+@cond(q=90, t=300, stubs=_STUB_TEXT[1:] + ["frame bytes := wire layout model (_WireFrame): 6-byte frame header, per block a 3-byte Block_Header + stored bytes, optional 4-byte checksum; zstandard.frame_header_size / has_checksum answer from it"],
+      encoded=[cod.decompress, cod._decompress_body_zstd, cod._zstd_content_size] + ([cod._zstd_frame_complete] if hasattr(cod, "_zstd_frame_complete") else []),
+      bound=f"size-less frame of 1..{_KB} blocks, Block_Type in {{Raw, RLE, Compressed}}, Block_Size 0..{_BLOCK_MAX} (Compressed: 2..), checksum flag, fill byte; n<={_NL}, cap None|0..{_NL + 2}",
+      replay=_replay_layout, signature=lambda a, c: "C18:zstd:streaming-frame-block-layout")
+def zstd_streaming_frame_of_any_block_layout(
+    plain: bytes, has_cap: bool, cap: int, checksum: bool, fill: int, nblocks: int, t0: int, s0: int, t1: int, s1: int, t2: int, s2: int
+) -> bool:
+    """
+    pre: len(plain) <= _NL and 0 <= cap <= _NL + 2 and 0 <= fill <= 255 and 1 <= nblocks <= _KB
+    pre: 0 <= t0 <= 2 and 0 <= t1 <= 2 and 0 <= t2 <= 2
+    pre: t0 * (t0 - 1) <= s0 <= _BLOCK_MAX and t1 * (t1 - 1) <= s1 <= _BLOCK_MAX and t2 * (t2 - 1) <= s2 <= _BLOCK_MAX
+    post: _
+    """
+    # a streaming compressor cuts its input into blocks of up to Block_Maximum_Size and stores each as Raw (does not
+    # compress: Block_Size = the block's length, up to the maximum itself), RLE (one byte) or Compressed; every such
+    # frame must round-trip / hit the limit error like any other
+    # (t * (t - 1) = 0, 0, 2: a Compressed block holds at least a literals header and a sequence count)
+    layout = [(t0, s0), (t1, s1), (t2, s2)][:nblocks]
+    headers = [(i == nblocks - 1, t, sz) for i, (t, sz) in enumerate(layout)]
+    frame = _WireFrame(plain, _UNKNOWN, _WIN_LO, checksum, headers, fill)
+    return _zstd_decides(plain, cap if has_cap else None, _UNKNOWN, 1 << 30, _WIN_LO, frame)
 
 
 def _sig_lie(args: dict, conc: object) -> str:
